@@ -217,6 +217,95 @@ fn c12_overlay_parent_rejected(dir: &str, nonblocking: bool) -> bool {
     rejected && root_unchanged && k7 == None
 }
 
+/// C20 (driver, run under strace): create a fresh database, commit, drop; reopen, commit, drop.
+fn c20_fresh_and_reopen(dir: &str) -> bool {
+    let _ = std::fs::remove_dir_all(dir);
+    for round in 0..2u8 {
+        let db: Db = Nomt::open(opts(dir, true)).unwrap();
+        commit(&db, vec![(key(round + 1), Some(vec![round; 8]))]);
+        drop(db);
+    }
+    true
+}
+
+/// C20 (driver, run under strace): a commit whose hash-table page writes fail returns early with
+/// the remaining completions still outstanding (each held back 150 ms by the hook); the handle is then
+/// dropped. The caller checks that every completion is delivered before flock(LOCK_UN).
+fn c20_drop_with_inflight_io(dir: &str) -> bool {
+    let _ = std::fs::remove_dir_all(dir);
+    let mut o = opts(dir, false);
+    o.io_workers(1);
+    let db: Db = Nomt::open(o).unwrap();
+    commit(&db, vec![(key(1), Some(vec![1]))]);
+    nomt::verif_api::io_faults::fail_writes_to(Some("/ht"));
+    nomt::verif_api::io_faults::delay_write_completions(150);
+    let s = db.begin_session(SessionParams::default());
+    let mut w = vec![];
+    for i in 10..40u8 {
+        w.push((key(i), KeyReadWrite::Write(Some(vec![i; 4]))));
+    }
+    let r = s.finish(w).unwrap().commit(&db);
+    eprintln!("verif-commit-returned err={}", r.is_err());
+    drop(db);
+    eprintln!("verif-handle-dropped");
+    // let completions that were still in flight (if any) surface in the trace
+    std::thread::sleep(std::time::Duration::from_millis(2500));
+    nomt::verif_api::io_faults::delay_write_completions(0);
+    nomt::verif_api::io_faults::fail_writes_to(None);
+    true
+}
+
+fn dir_snapshot(dir: &str) -> Vec<(String, u64, u64)> {
+    let mut v = vec![];
+    for e in std::fs::read_dir(dir).unwrap() {
+        let e = e.unwrap();
+        let bytes = std::fs::read(e.path()).unwrap_or_default();
+        let mut h = 0xcbf29ce484222325u64;
+        for b in &bytes {
+            h = (h ^ *b as u64).wrapping_mul(0x100000001b3);
+        }
+        v.push((e.file_name().to_string_lossy().to_string(), bytes.len() as u64, h));
+    }
+    v.sort();
+    v
+}
+
+/// C20 (helper, run as a child process): try to open `dir`; prints the outcome.
+fn c20_try_open(dir: &str) -> bool {
+    match Nomt::<Blake3Hasher>::open(opts(dir, true)) {
+        Ok(_) => println!("child-open: OPENED"),
+        Err(e) => println!("child-open: REFUSED {}", e),
+    }
+    true
+}
+
+/// C20: while a handle is alive a second open - from another thread and from another process - is
+/// refused and leaves every file as it was; after the handle is dropped the directory opens again.
+fn c20_second_open(dir: &str) -> bool {
+    let _ = std::fs::remove_dir_all(dir);
+    let db: Db = Nomt::open(opts(dir, true)).unwrap();
+    commit(&db, vec![(key(1), Some(vec![1]))]);
+    let before = dir_snapshot(dir);
+    let d2 = dir.to_string();
+    let thread_refused = std::thread::spawn(move || Nomt::<Blake3Hasher>::open(opts(&d2, true)).is_err()).join().unwrap();
+    let out = std::process::Command::new(std::env::current_exe().unwrap()).args(["c20_try_open", dir]).output().unwrap();
+    let out = String::from_utf8_lossy(&out.stdout).to_string();
+    let child_refused = out.contains("child-open: REFUSED");
+    let unchanged = dir_snapshot(dir) == before;
+    let still_works = {
+        commit(&db, vec![(key(2), Some(vec![2]))]);
+        db.read(key(2)).unwrap() == Some(vec![2])
+    };
+    drop(db);
+    let reopen_ok = match Nomt::<Blake3Hasher>::open(opts(dir, true)) {
+        Ok(db) => db.read(key(2)).unwrap() == Some(vec![2]),
+        Err(_) => false,
+    };
+    println!("second open refused: thread={} child={} files_unchanged={} first_handle_still_works={} reopen_after_drop={}",
+        thread_refused, child_refused, unchanged, still_works, reopen_ok);
+    thread_refused && child_refused && unchanged && still_works && reopen_ok
+}
+
 fn main() {
     let a: Vec<String> = std::env::args().collect();
     let (name, dir) = (a[1].as_str(), a[2].as_str());
@@ -231,6 +320,10 @@ fn main() {
         "c04_crash_post_meta" => c04_crash_post_meta(dir),
         "c04_reopen" => c04_reopen(dir),
         "c04_two_commits" => c04_two_commits(dir),
+        "c20_fresh_and_reopen" => c20_fresh_and_reopen(dir),
+        "c20_try_open" => c20_try_open(dir),
+        "c20_drop_with_inflight_io" => c20_drop_with_inflight_io(dir),
+        "c20_second_open" => c20_second_open(dir),
         _ => panic!("unknown scenario"),
     };
     if ok {
